@@ -1,4 +1,5 @@
 import logging
+import os
 from contextlib import suppress
 from copy import copy
 from typing import TYPE_CHECKING, Callable, ClassVar, Optional, Union
@@ -53,7 +54,14 @@ class HashFileDB(ObjectDB):
     CACHE_MODE: ClassVar[Optional[int]] = None
 
     def __init__(self, fs: "FileSystem", path: str, read_only: bool = False, **config):
+        from dvc_objects.fs.local import LocalFileSystem
+
         from dvc_data.hashfile.state import StateNoop
+
+        if path and isinstance(fs, LocalFileSystem):
+            # NOTE: object paths are built from, and mapped back to oids
+            # against, this path as it is spelled, so spell it one way
+            path = os.path.normpath(path)
 
         super().__init__(fs, path, read_only=read_only)
         self.state: StateBase = config.get("state", StateNoop())
